@@ -5,4 +5,7 @@ let table : (string * (Model.sx -> Model.sx)) list = [
   "valset", Model.check_valset;
   "signer", Model.check_signer;
   "admin", Model.check_admin;
+  "sconn", Model.check_sconn;
+  "mconn", Model.check_mconn;
+  "admit", Model.check_admit;
 ]
